@@ -387,6 +387,8 @@ class FedSim(object):
 
     def ev_mkreq(self, ev, i):
         """SP creates a logout request or an attribute query for an IdP/AA."""
+        if ev.get("direction") == "idp2sp":
+            return self.mkreq_idp2sp(ev, i)
         sp = self.nodes.get(ev["sp"])
         idp_name = ev["idp"]
         if sp is None or idp_name not in self.truth:
@@ -427,6 +429,45 @@ class FedSim(object):
         self.count("mkreq." + kind)
         return rec
 
+    def mkreq_idp2sp(self, ev, i):
+        """The IdP asks an SP to terminate a session (single logout, IdP -> SP)."""
+        idp = self.nodes.get(ev["idp"])
+        sp_name = ev["sp"]
+        if idp is None or sp_name not in self.truth:
+            return None
+        sp_spec = None
+        for p_ in idp.peer_view.values():
+            if p_["name"] == sp_name:
+                sp_spec = p_
+        if sp_spec is None:
+            return None
+        fl = self.flow(ev["f"])
+        fl.sp, fl.idp = sp_name, ev["idp"]
+        fl.relay = "rs-%d" % ev["f"]
+        fl.req_target = sp_name
+        b = ev.get("rb", "soap")
+        dest = fed.sp_endpoints(sp_spec)["slo_" + b]
+        name_id = saml.NameID(text=ev.get("subject", "subj-%d" % ev["f"]), format=saml.NAMEID_FORMAT_PERSISTENT,
+                              sp_name_qualifier=fed.sp_entity(sp_spec))
+        sign = bool(ev.get("sign"))
+        rec = {"sp": sp_name, "idp": idp.name, "f": ev["f"], "rb": b, "kind": "logout_request", "direction": "idp2sp"}
+        try:
+            with self.world.on(idp.name):
+                reqid, req = idp.server.create_logout_request(dest, fed.sp_entity(sp_spec), name_id=name_id, sign=sign,
+                                                              sign_alg=ev.get("sigalg"), digest_alg=ev.get("digalg"))
+                info = idp.server.apply_binding(BIND[b], "%s" % req, dest, fl.relay)
+        except Exception as e:
+            rec["error"] = type(e).__name__
+            self.count("mkreq.error." + type(e).__name__)
+            return rec
+        msg = self.capture(info, b, "SAMLRequest", idp.name)
+        msg["kind"] = "logout_request"
+        msg["signed_by"] = "k%d" % idp.spec.get("actual_key", idp.spec["key"]) if sign else None
+        fl.request = msg
+        rec.update({"reqid": reqid, "dest": msg["dest"], "ok": True})
+        self.count("mkreq.logout_request.idp2sp")
+        return rec
+
     def capture(self, info, binding, param, sender):
         """Read what pysaml2's apply_binding produced the way a user agent / HTTP peer would."""
         if binding == "redirect":
@@ -449,9 +490,9 @@ class FedSim(object):
         if fl is None or fl.request is None:
             return None
         msg = fl.request
-        to = ev.get("to") or fl.idp
-        idp = self.nodes.get(to)
-        if idp is None or idp.kind != "idp":
+        to = ev.get("to") or getattr(fl, "req_target", None) or fl.idp
+        idp = self.nodes.get(to)       # the receiving node (an IdP, or an SP for IdP -> SP logout requests)
+        if idp is None:
             return None
         kindmsg = msg.get("kind", "authn_request")
         prefix = {"authn_request": "sso_", "logout_request": "slo_", "attribute_query": "aa_"}[kindmsg]
@@ -467,11 +508,21 @@ class FedSim(object):
                "msg_binding": msg["binding"], "via_binding": via_binding, "value": value,
                "signed_by": msg.get("signed_by"), "from": msg["from"],
                "now": int(self.world.clock.now(to)), "tf": ev.get("tf")}
+        if to != (getattr(fl, "req_target", None) or fl.idp):
+            self.count("fault.misdeliver-other-node")
+        if ev.get("via"):
+            self.count("fault.other-endpoint")
+        if mutdesc:
+            self.count("mut." + mutdesc.split(":")[0].split("@")[0])
         self.install_tool_faults(ev)
         n0 = len(self.world.tool.invocations)
         try:
             with self.world.on(to):
-                if via.startswith("sso_"):
+                if idp.kind == "sp":
+                    if not via.startswith("slo_"):
+                        return None
+                    req = idp.client.parse_logout_request(value, BIND[via_binding])
+                elif via.startswith("sso_"):
                     req = idp.server.parse_authn_request(value, BIND[via_binding])
                 elif via.startswith("slo_"):
                     req = idp.server.parse_logout_request(value, BIND[via_binding])
@@ -861,6 +912,20 @@ class FedSim(object):
                "outstanding": sorted(sp.outstanding.keys()), "value": value,
                "asked": msg.get("asked"), "tf": ev.get("tf"), "dup": ev.get("dup", False),
                "from": msg["from"], "msgkind": msg.get("kind", "response")}
+        if ev.get("dup"):
+            self.count("fault.dup-or-replay")
+        if to != fl.sp:
+            self.count("fault.misdeliver-other-sp")
+        if ev.get("via"):
+            self.count("fault.other-endpoint")
+        if mutdesc:
+            self.count("mut." + mutdesc.split(":")[0].split("@")[0])
+        if msg.get("asked") and msg["asked"].get("idp_now") is not None:
+            lag = rec["now"] - msg["asked"]["idp_now"]
+            if abs(lag) > 5:
+                self.count("fault.delay-or-skew>5s")
+            if abs(lag) > 3600:
+                self.count("fault.delay-or-skew>1h")
         self.install_tool_faults(ev)
         n0 = len(w.tool.invocations)
         subjects_before = self.sp_subjects(sp)
@@ -936,7 +1001,7 @@ class FedSim(object):
         if ev["node"] not in self.truth:
             return None
         self.world.clock.jump(ev["node"], ev["delta"])
-        self.count("jump")
+        self.count("fault.clock-jump")
         return {"node": ev["node"], "delta": ev["delta"]}
 
     def ev_restart(self, ev, i):
@@ -946,7 +1011,7 @@ class FedSim(object):
         if n.kind == "sp":
             n.outstanding = {}
         self.build_node(ev["node"])
-        self.count("restart")
+        self.count("fault.restart")
         return {"node": ev["node"]}
 
     def ev_refresh(self, ev, i):
@@ -963,13 +1028,13 @@ class FedSim(object):
             # remember) stay
             try:
                 self.nodes[name].refresh_in_place(self.view_of(name))
-                self.count("refresh.inplace")
+                self.count("fault.metadata-refresh-in-place")
             except Exception as e:
                 self.count("refresh.inplace.error." + type(e).__name__)
                 self.build_node(name)
             return {"node": name, "inplace": True}
         self.build_node(name)
-        self.count("refresh")
+        self.count("fault.metadata-refresh")
         return {"node": name}
 
     def ev_freeze(self, ev, i):
@@ -992,7 +1057,7 @@ class FedSim(object):
         spec["key"] = ev["new_key"]
         spec["extra_certs"] = [old] if ev.get("keep_old") else []
         self.build_node(name)
-        self.count("roll")
+        self.count("fault.key-roll")
         return {"idp": name, "old": old, "new": ev["new_key"]}
 
     def ev_misdeploy(self, ev, i):
@@ -1005,7 +1070,7 @@ class FedSim(object):
         spec["actual_key"] = ev["key"]
         spec["actual_cert"] = ev.get("cert", "own")
         self.build_node(name)
-        self.count("misdeploy")
+        self.count("fault.misdeployed-key")
         return {"idp": name, "key": ev["key"]}
 
     def ev_setview(self, ev, i):
@@ -1022,7 +1087,7 @@ class FedSim(object):
                 self.build_node(ev["node"])
         else:
             self.build_node(ev["node"])
-        self.count("setview")
+        self.count("fault.stale-metadata-view")
         return {"node": ev["node"], "peer": ev["peer"]}
 
 
